@@ -1,0 +1,23 @@
+//go:build verif
+
+package corebgp
+
+import "sync/atomic"
+
+var verifHook atomic.Pointer[func(point string, obj any)]
+
+// VerifSetHook installs fn to be called at every schedule point (nil removes
+// it). fn may block to hold the calling goroutine at that point.
+func VerifSetHook(fn func(point string, obj any)) {
+	if fn == nil {
+		verifHook.Store(nil)
+		return
+	}
+	verifHook.Store(&fn)
+}
+
+func verifPoint(point string, obj any) {
+	if fn := verifHook.Load(); fn != nil {
+		(*fn)(point, obj)
+	}
+}
